@@ -15,21 +15,18 @@ Ltac break_match :=
          | |- context [if ?x then _ else _] => destruct x eqn:?
          end.
 
-Definition same_log (a b : cstate) : Prop := calls a = calls b /\ ncall a = ncall b /\ queue a = queue b.
+(** a simulated pass leaves the handler log, the queue and the four target-side caches alone
+    (it only moves the expected-state caches) *)
+Definition same_log (a b : cstate) : Prop :=
+  calls a = calls b /\ ncall a = ncall b /\ queue a = queue b /\
+  r_live a = r_live b /\ r_trash a = r_trash b /\ l_live a = l_live b /\ l_trash a = l_trash b /\
+  curstep a = curstep b /\ curpartial a = curpartial b.
 
 Lemma same_log_refl a : same_log a a. Proof. repeat split; reflexivity. Qed.
 Lemma same_log_trans a b d : same_log a b -> same_log b d -> same_log a d.
-Proof. intros (? & ? & ?) (? & ? & ?); repeat split; congruence. Qed.
+Proof. intros (? & ? & ? & ? & ? & ? & ? & ? & ?) (? & ? & ? & ? & ? & ? & ? & ? & ?); repeat split; congruence. Qed.
 
-Lemma app_same_log (f : cstate -> N * Z -> obj -> cstate) st i o :
-  (f = app_r_live \/ f = app_r_trash \/ f = app_rc_live \/ f = app_rc_trash \/
-   f = app_l_live \/ f = app_l_trash \/ f = app_lc_live \/ f = app_lc_trash) ->
-  same_log (f st i o) st.
-Proof.
-  intros H. repeat destruct H as [H|H]; subst f;
-  unfold app_r_live, app_r_trash, app_rc_live, app_rc_trash, app_l_live, app_l_trash, app_lc_live, app_lc_trash;
-  destruct (wappend _ _ _ _ _); repeat split; reflexivity.
-Qed.
+
 
 Ltac unfold_apps :=
   unfold app_r_live, app_r_trash, app_rc_live, app_rc_trash, app_l_live, app_l_trash, app_lc_live, app_lc_trash, crash in *.
@@ -74,7 +71,7 @@ Ltac with_pl f st rev lev :=
   let H := fresh "H" in let s1 := fresh "s1" in let ok := fresh "ok" in
   pose proof (process_local_sim f st (Some rev) lev false) as H;
   destruct (process_local c outcome f st (Some rev) lev false true) as [s1 ok];
-  cbn [fst] in H; destruct H as (Hc & Hn & Hq).
+  cbn [fst] in H; destruct H as (Hc & Hn & Hq & Hr1 & Hr2 & Hl1 & Hl2 & Hs1 & Hs2).
 
 Lemma remote_added_sim f st rev lev : same_log (fst (remote_added c outcome f st rev lev true)) st.
 Proof.
@@ -126,19 +123,17 @@ Proof. unfold q_append, set_queue. destruct (find_ctype c (ce_t lev)); split; re
 (** *** the deferral decision of [__processRemoteEvent] *)
 Definition mapped (t : N) : bool := match find_ctype c t with Some _ => true | None => false end.
 
-Theorem parent_event_deferred f st rev :
+Theorem event_deferred f st rev :
   mapped (ce_t rev) = true ->
-  q_is_parent (queue st) (ce_id rev) = true ->
-  fk_events c (ce_kind rev) = true ->
+  q_has_obj (queue st) (ce_id rev) || (q_is_parent (queue st) (ce_id rev) && fk_events c (ce_kind rev)) = true ->
   let r := process_remote c outcome (S f) st rev None true false in
   calls (fst r) = calls st /\ ncall (fst r) = ncall st /\ snd r = true /\
   (cc_remed c = RDisabled ->
    forall l, convert c true rev = Some l ->
    exists e, queue (fst r) = queue st ++ [e] /\ q_remote e = Some rev /\ q_num e = q_next_num (queue st)).
 Proof.
-  intros Hm Hp Hk. cbn zeta. cbn [process_remote negb andb]. unfold mapped in Hm. rewrite Hm, Hp, Hk.
-  rewrite orb_true_r. cbn [andb].
-  pose proof (process_remote_sim f st rev None false) as (Hc & Hn & Hq).
+  intros Hm Hd. cbn zeta. cbn [process_remote negb andb]. unfold mapped in Hm. rewrite Hm, Hd. cbn [andb].
+  pose proof (process_remote_sim f st rev None false) as (Hc & Hn & Hq & _).
   destruct (process_remote c outcome f st rev None false true) as [s1 ok1]. cbn [fst] in *.
   assert (Hq' : forall l msg, cc_remed c = RDisabled -> find_ctype c (ce_t l) <> None ->
             exists e, queue (q_append c s1 (Some rev) l msg) = queue st ++ [e] /\ q_remote e = Some rev
@@ -157,6 +152,33 @@ Proof.
     + repeat split; try assumption. intros _ l Hl. discriminate.
 Qed.
 
+(** an event of a kind covered by the policy on a registered parent is queued, not applied *)
+Theorem parent_event_deferred f st rev :
+  mapped (ce_t rev) = true ->
+  q_is_parent (queue st) (ce_id rev) = true ->
+  fk_events c (ce_kind rev) = true ->
+  let r := process_remote c outcome (S f) st rev None true false in
+  calls (fst r) = calls st /\ ncall (fst r) = ncall st /\ snd r = true /\
+  (cc_remed c = RDisabled ->
+   forall l, convert c true rev = Some l ->
+   exists e, queue (fst r) = queue st ++ [e] /\ q_remote e = Some rev /\ q_num e = q_next_num (queue st)).
+Proof. intros Hm Hp Hk. apply event_deferred; [exact Hm|]. rewrite Hp, Hk, orb_true_r. reflexivity. Qed.
+
+(** an event on an object that already has queue entries is queued behind them, not applied *)
+Theorem same_object_event_deferred f st rev :
+  mapped (ce_t rev) = true ->
+  q_has_obj (queue st) (ce_id rev) = true ->
+  let r := process_remote c outcome (S f) st rev None true false in
+  calls (fst r) = calls st /\ ncall (fst r) = ncall st /\ snd r = true /\
+  (cc_remed c = RDisabled ->
+   forall l, convert c true rev = Some l ->
+   exists e, queue (fst r) = queue st ++ [e] /\ q_remote e = Some rev /\ q_num e = q_next_num (queue st)).
+Proof. intros Hm Hp. apply event_deferred; [exact Hm|]. rewrite Hp. reflexivity. Qed.
+End FK.
+
+Section FK2.
+Variable c : ccfg.
+Variable outcome : nat -> hres.
 (** *** the retry pass leaves an entry alone while its object is a registered parent *)
 Theorem retry_skips_parent st n r skipped e :
   exc st = false ->
@@ -167,4 +189,4 @@ Theorem retry_skips_parent st n r skipped e :
 Proof.
   intros Hx Hf Ho Hp. cbn [retry_pass]. rewrite Hx, Hf, Ho. cbn [negb]. rewrite Hp. reflexivity.
 Qed.
-End FK.
+End FK2.
